@@ -259,3 +259,36 @@ def trace_strategy(st, p, max_vars=6, max_cons=5):
             calls.append(["con", slot(), slot(), slot()])
         return calls
     return gen()
+
+
+STALE = b"\xa5STALE-ARTEFACT-FROM-AN-EARLIER-RUN" * 3000      # about 100 KB, longer than most outputs
+
+
+def prove_over_stale(mod, tmp, files):
+    """the output files already exist and are longer than what is about to be written (a previous, bigger run in the same
+    directory): prove() must replace them. Also: the proving step must not leave file descriptors open.
+    Returns a message or None."""
+    for f in files:
+        with open(os.path.join(tmp, f), "wb") as fh:
+            fh.write(STALE)
+    try:
+        fds = set(os.listdir("/proc/self/fd"))
+    except OSError:
+        fds = None
+    mod.prove()
+    if fds is not None:
+        after = set(os.listdir("/proc/self/fd"))
+        leaked = []
+        for fd in sorted(after - fds, key=int):
+            try:
+                leaked.append(os.readlink("/proc/self/fd/" + fd))
+            except OSError:
+                pass
+        leaked = [x for x in leaked if any(x.endswith("/" + f) for f in files)]
+        if leaked:
+            return "prove() left its output open: %r" % leaked
+    for f in files:
+        data = open(os.path.join(tmp, f), "rb").read()
+        if data == STALE:
+            return "%s was not rewritten by prove()" % f
+    return None
